@@ -42,6 +42,7 @@ pub fn step(w: &mut World, ev: Option<Ev>, check: &mut dyn FnMut(&World, &mut Ve
         if ok { mc::catch(|| a.selected_tracer_data.hops_for_flow(a.selected_flow).len()).unwrap_or(0) } else { 0 }
     };
     let main_mode = !w.app.show_help && !w.app.show_settings;
+    set_stage(&format!("handling {}", ev.map_or("start".to_string(), |e| e.name())));
     if let Some(ev) = ev {
         let r = mc::catch(|| match ev {
             Ev::Key(k) => {
@@ -86,6 +87,7 @@ pub fn step(w: &mut World, ev: Option<Ev>, check: &mut dyn FnMut(&World, &mut Ve
         return fails;
     }
     invariants(w, &mut fails);
+    set_stage(&format!("drawing the frame after {} at {}x{}", ev.map_or("start".to_string(), |e| e.name()), w.cfg.size.0, w.cfg.size.1));
     if let Err(p) = mc::catch(|| w.draw()) {
         fails.push(fail_panic("draw", p));
         return fails;
@@ -124,6 +126,134 @@ pub fn invariants(w: &World, fails: &mut Vec<StepFail>) {
     }
 }
 
+thread_local! {
+    static STAGE_SLOT: std::cell::RefCell<Option<std::sync::Arc<Mutex<String>>>> = const { std::cell::RefCell::new(None) };
+}
+
+/// What the current job is doing (read by the pool when it declares the job hung).
+pub fn set_stage(what: &str) {
+    STAGE_SLOT.with(|s| {
+        if let Some(slot) = s.borrow().as_ref() {
+            *slot.lock().unwrap_or_else(std::sync::PoisonError::into_inner) = what.to_string();
+        }
+    });
+}
+
+/// Outcome of one pooled job.
+pub enum Done<R> {
+    Ok(R),
+    /// the job did not return within the time limit; its thread was abandoned (`stage` = what it
+    /// was doing)
+    Hung { stage: String },
+    /// the job panicked outside the captured calls (a defect of the harness)
+    Crashed(String),
+}
+
+pub const JOB_TIMEOUT_S: u64 = 20;
+
+/// Run `f` over `jobs` on a pool of detached helper threads.  Code under test that never returns
+/// (observed: ratatui 0.29's cassowary layout solver cycling inside `Terminal::draw` for some
+/// hash-map iteration orders) costs one abandoned thread, not the whole run.
+pub fn run_jobs<J: Send + 'static, R: Send + 'static>(jobs: Vec<J>, f: fn(J) -> R) -> Vec<Done<R>> {
+    use std::collections::VecDeque;
+    use std::sync::mpsc;
+    use std::sync::Arc;
+    use std::time::{Duration, Instant};
+    let n = jobs.len();
+    let queue: Arc<Mutex<VecDeque<(usize, J)>>> = Arc::new(Mutex::new(jobs.into_iter().enumerate().collect()));
+    // per job: (start, stage slot)
+    let started: Arc<Mutex<Vec<Option<(Instant, Arc<Mutex<String>>)>>>> = Arc::new(Mutex::new((0..n).map(|_| None).collect()));
+    let (tx, rx) = mpsc::channel::<(usize, Result<R, String>)>();
+    let spawn_helper = || {
+        let (queue, started, tx) = (queue.clone(), started.clone(), tx.clone());
+        std::thread::spawn(move || loop {
+            let Some((idx, job)) = queue.lock().unwrap_or_else(std::sync::PoisonError::into_inner).pop_front() else { return };
+            let slot = Arc::new(Mutex::new(String::from("starting")));
+            STAGE_SLOT.with(|s| *s.borrow_mut() = Some(slot.clone()));
+            started.lock().unwrap_or_else(std::sync::PoisonError::into_inner)[idx] = Some((Instant::now(), slot));
+            let r = std::panic::catch_unwind(std::panic::AssertUnwindSafe(|| f(job))).map_err(|e| mc::panic_message(&e));
+            if tx.send((idx, r)).is_err() {
+                return;
+            }
+        });
+    };
+    for _ in 0..mc::workers().min(n.max(1)) {
+        spawn_helper();
+    }
+    let mut out: Vec<Option<Done<R>>> = (0..n).map(|_| None).collect();
+    let mut remaining = n;
+    while remaining > 0 {
+        match rx.recv_timeout(Duration::from_millis(250)) {
+            Ok((idx, r)) => {
+                if out[idx].is_none() {
+                    out[idx] = Some(match r {
+                        Ok(v) => Done::Ok(v),
+                        Err(m) => Done::Crashed(m),
+                    });
+                    remaining -= 1;
+                }
+            }
+            Err(mpsc::RecvTimeoutError::Timeout) => {
+                let st = started.lock().unwrap_or_else(std::sync::PoisonError::into_inner);
+                let hung: Vec<(usize, String)> = st
+                    .iter()
+                    .enumerate()
+                    .filter(|(i, s)| out[*i].is_none() && s.as_ref().is_some_and(|(t, _)| t.elapsed() > Duration::from_secs(JOB_TIMEOUT_S)))
+                    .map(|(i, s)| (i, s.as_ref().unwrap().1.lock().unwrap_or_else(std::sync::PoisonError::into_inner).clone()))
+                    .collect();
+                drop(st);
+                for (i, stage) in hung {
+                    out[i] = Some(Done::Hung { stage });
+                    remaining -= 1;
+                    // keep the degree of parallelism: the stuck helper never comes back
+                    spawn_helper();
+                }
+            }
+            Err(mpsc::RecvTimeoutError::Disconnected) => break,
+        }
+    }
+    out.into_iter().map(|o| o.unwrap_or(Done::Crashed("helper threads vanished".into()))).collect()
+}
+
+pub type MakeCheck = fn() -> Box<dyn FnMut(&World, &mut Vec<StepFail>)>;
+
+fn hung_fail(stage: &str) -> StepFail {
+    let what = if stage.starts_with("drawing") { "draw" } else { "command" };
+    StepFail { phase: "hang".into(), key: format!("never-returns:{what}"), detail: format!("no return within {JOB_TIMEOUT_S} s while {stage}") }
+}
+
+/// Replay `hist` as a pooled job: (canonical key of the final state or 0, failures of the last step).
+fn replay_job((cfg, hist, make_check): (WorldCfg, Vec<Ev>, MakeCheck)) -> (u64, Vec<StepFail>) {
+    let mut chk = make_check();
+    let (w, f) = replay(&cfg, &hist, &mut *chk);
+    (w.as_ref().map_or(0, World::key), f)
+}
+
+/// Replay many histories on the pool; a history whose replay hangs yields a "hang" failure.
+pub fn replay_all(cfg: &WorldCfg, hists: &[Vec<Ev>], make_check: MakeCheck) -> Vec<(u64, Vec<StepFail>)> {
+    let jobs: Vec<(WorldCfg, Vec<Ev>, MakeCheck)> = hists.iter().map(|h| (cfg.clone(), h.clone(), make_check)).collect();
+    run_jobs(jobs, replay_job)
+        .into_iter()
+        .zip(hists)
+        .map(|(d, h)| match d {
+            Done::Ok(x) => x,
+            Done::Hung { stage } => {
+                // does this history hang every time?  (twice more, alone)
+                let again = (0..2).all(|_| matches!(run_jobs(vec![(cfg.clone(), h.clone(), make_check)], replay_job).pop(), Some(Done::Hung { .. })));
+                let mut f = hung_fail(&stage);
+                if !again {
+                    // the same history returned when replayed on another thread: the hang depends on
+                    // something outside the history (hash-map iteration order in a dependency)
+                    f.key.push_str(":not-reproducible");
+                    f.detail.push_str("; the same history returned normally when replayed again");
+                }
+                (0, vec![f])
+            }
+            Done::Crashed(m) => panic!("MACHINERY: a replay job crashed: {m}"),
+        })
+        .collect()
+}
+
 pub struct BfsResult {
     pub states: u64,
     pub transitions: u64,
@@ -158,7 +288,7 @@ pub fn bfs(
     root: &[Ev],
     max_depth: usize,
     max_states: usize,
-    make_check: &(dyn Fn() -> Box<dyn FnMut(&World, &mut Vec<StepFail>)> + Sync),
+    make_check: MakeCheck,
 ) -> BfsResult {
     bfs_bounded(cfg, alphabet, root, max_depth, max_states, &|_| 0, usize::MAX, make_check)
 }
@@ -175,7 +305,7 @@ pub fn bfs_bounded(
     max_states: usize,
     cost: &(dyn Fn(&Ev) -> usize + Sync),
     cost_bound: usize,
-    make_check: &(dyn Fn() -> Box<dyn FnMut(&World, &mut Vec<StepFail>)> + Sync),
+    make_check: MakeCheck,
 ) -> BfsResult {
     bfs_roots(cfg, alphabet, &[root.to_vec()], max_depth, max_states, cost, cost_bound, make_check)
 }
@@ -191,7 +321,7 @@ pub fn bfs_roots(
     max_states: usize,
     cost: &(dyn Fn(&Ev) -> usize + Sync),
     cost_bound: usize,
-    make_check: &(dyn Fn() -> Box<dyn FnMut(&World, &mut Vec<StepFail>)> + Sync),
+    make_check: MakeCheck,
 ) -> BfsResult {
     let mut res = BfsResult { states: 0, transitions: 0, max_depth: 0, fixpoint: false, fails: vec![], reached: vec![] };
     let mut seen: HashSet<u64> = HashSet::new();
@@ -199,18 +329,14 @@ pub fn bfs_roots(
     let skey = |key: u64, spent: usize| if bounded { mc::hash64(&(key, spent)) | 1 } else { key };
     // (history, cost spent)
     let mut frontier: Vec<(Vec<Ev>, usize)> = vec![];
-    for root in roots {
-        let mut chk = make_check();
-        let (w, f) = replay(cfg, root, &mut *chk);
+    for (root, (wkey, f)) in roots.iter().zip(replay_all(cfg, roots, make_check)) {
         for x in f {
             res.fails.push((root.clone(), x));
         }
-        if let Some(w) = w {
-            if seen.insert(skey(w.key(), 0)) {
-                res.states += 1;
-                res.reached.push(root.clone());
-                frontier.push((root.clone(), 0));
-            }
+        if wkey != 0 && seen.insert(skey(wkey, 0)) {
+            res.states += 1;
+            res.reached.push(root.clone());
+            frontier.push((root.clone(), 0));
         }
     }
     for depth in 1..=max_depth {
@@ -225,18 +351,20 @@ pub fn bfs_roots(
             .flat_map(|n| (0..alphabet.len()).map(move |e| (n, e)))
             .filter(|(n, e)| frontier[*n].1 + cost(&alphabet[*e]) <= cost_bound)
             .collect();
-        let out: Mutex<Vec<(u64, Vec<Ev>, usize, Vec<StepFail>)>> = Mutex::new(vec![]);
-        mc::par_for(jobs.len(), mc::workers(), |j| {
-            let (n, e) = jobs[j];
-            let mut h = frontier[n].0.clone();
-            h.push(alphabet[e]);
-            let spent = frontier[n].1 + cost(&alphabet[e]);
-            let mut chk = make_check();
-            let (w, f) = replay(cfg, &h, &mut *chk);
-            let key = w.as_ref().map_or(0, World::key);
-            out.lock().unwrap().push((if w.is_some() { key } else { 0 }, h, spent, f));
-        });
-        let mut out = out.into_inner().unwrap();
+        let hists: Vec<Vec<Ev>> = jobs
+            .iter()
+            .map(|(n, e)| {
+                let mut h = frontier[*n].0.clone();
+                h.push(alphabet[*e]);
+                h
+            })
+            .collect();
+        let mut out: Vec<(u64, Vec<Ev>, usize, Vec<StepFail>)> = replay_all(cfg, &hists, make_check)
+            .into_iter()
+            .zip(hists)
+            .zip(&jobs)
+            .map(|(((key, f), h), (n, e))| (key, h, frontier[*n].1 + cost(&alphabet[*e]), f))
+            .collect();
         // deterministic order regardless of thread scheduling
         out.sort_by(|a, b| a.1.iter().map(Ev::name).collect::<Vec<_>>().cmp(&b.1.iter().map(Ev::name).collect::<Vec<_>>()));
         res.transitions += out.len() as u64;
